@@ -17,7 +17,17 @@ use std::collections::HashMap;
 pub enum Input {
     Text { text: String, src: String },
     /// `capped`: the generator wanted a larger depth but the kind has a recorded stack-overflow finding
-    Nest { kind: String, depth: u32, closed: bool, capped: bool },
+    Nest {
+        kind: String,
+        depth: u32,
+        closed: bool,
+        capped: bool,
+        /// comment line between the levels (`nesting::FILLERS`, 0 = none), after every `period` levels
+        #[serde(default)]
+        filler: u8,
+        #[serde(default)]
+        period: u16,
+    },
     /// `max_mib`: size bound of the scaled input (1 quick, 4 thorough)
     Scale { unit: String, src: String, max_mib: u8 },
 }
@@ -346,7 +356,7 @@ impl Property for C02 {
         "C02"
     }
     fn rule(&self) -> String {
-        "cases run in a worker process on a 2 MiB-stack thread; inputs = C01's text domain (soup / mutated corpus / lossy bytes / doc-heavy / corpus files; ~98.9 %), nesting (50 construct kinds x depth log-uniform 1..200000 x closed/unclosed; chain kinds capped below the recorded findings; ~1 %) and scaling units (u^k for k=256,2048,.. up to 1 MiB quick / 4 MiB thorough; thread-CPU time of the last two sizes compared once the larger reaches 0.25 s; ~0.03 %) x 8 language levels x doc on/off x extension bits x shared cache x special-function map; non-trivial = nesting depth >= 64, or >= 1 parse error, or a scaling unit measured at >= 2 sizes; distinct = distinct case digest".into()
+        "cases run in a worker process on a 2 MiB-stack thread; inputs = C01's text domain (soup / mutated corpus / lossy bytes / doc-heavy / corpus files; ~98.9 %), nesting (50 construct kinds x depth log-uniform 1..200000 x closed/unclosed x an optional comment line (plain, well-formed doc tag, doc tag with a cut-off type) after every 1..400 levels; chain kinds capped below the recorded findings; ~1 %) and scaling units (u^k for k=256,2048,.. up to 1 MiB quick / 4 MiB thorough; thread-CPU time of the last two sizes compared once the larger reaches 0.25 s; ~0.03 %) x 8 language levels x doc on/off x extension bits x shared cache x special-function map; non-trivial = nesting depth >= 64, or >= 1 parse error, or a scaling unit measured at >= 2 sizes; distinct = distinct case digest".into()
     }
     fn assumptions(&self) -> Vec<String> {
         vec![
@@ -377,10 +387,10 @@ impl Property for C02 {
         let (wt, wn, ws) = (9497, 100, 3);
         let input = prop_oneof![
             wt => crate::props::c01::text_strategy(tier).prop_map(|(text, src)| Input::Text { text, src }),
-            wn => nesting::nesting(MAX_DEPTH).prop_map(|(k, d, closed)| {
+            wn => (nesting::nesting(MAX_DEPTH), prop_oneof![2 => Just(0u8), 1 => 1u8..nesting::FILLERS.len() as u8], prop_oneof![Just(1u16), Just(7), Just(100), Just(200), Just(255), 1u16..400]).prop_map(|((k, d, closed), filler, period)| {
                 let kind = nesting::kind_name(k).to_string();
                 let cap = depth_cap(&kind);
-                Input::Nest { depth: d.min(cap), capped: d > cap, kind, closed }
+                Input::Nest { depth: d.min(cap), capped: d > cap, kind, closed, filler, period }
             }),
             ws => unit_strategy().prop_map(move |(unit, src)| Input::Scale { unit, src, max_mib }),
         ];
@@ -394,7 +404,7 @@ impl Property for C02 {
         for k in nesting::KINDS {
             for closed in [true, false] {
                 let depth = 100u32.min(depth_cap(k.name));
-                v.push(Case { input: Input::Nest { kind: k.name.to_string(), depth, closed, capped: false }, level: 6, doc: true, ext: 0, cache: false, special: false });
+                v.push(Case { input: Input::Nest { kind: k.name.to_string(), depth, closed, capped: false, filler: 0, period: 0 }, level: 6, doc: true, ext: 0, cache: false, special: false });
             }
         }
         v
@@ -402,14 +412,17 @@ impl Property for C02 {
     fn simplify(&self, c: &Case) -> Vec<Case> {
         match &c.input {
             Input::Text { text, src } => util::text_simplify(text).into_iter().map(|t| Case { input: Input::Text { text: t, src: src.clone() }, ..c.clone() }).collect(),
-            Input::Nest { kind, depth, closed, capped } => {
+            Input::Nest { kind, depth, closed, capped, filler, period } => {
                 // bisection-like candidates: large steps first, then -1 (greedy loop converges to the smallest failing depth)
                 let d = *depth;
                 let mut out = vec![];
                 let mut step = d / 2;
                 while step >= 1 {
-                    out.push(Case { input: Input::Nest { kind: kind.clone(), depth: d - step, closed: *closed, capped: *capped }, ..c.clone() });
+                    out.push(Case { input: Input::Nest { kind: kind.clone(), depth: d - step, closed: *closed, capped: *capped, filler: *filler, period: *period }, ..c.clone() });
                     step /= 2;
+                }
+                if *filler != 0 {
+                    out.push(Case { input: Input::Nest { kind: kind.clone(), depth: d, closed: *closed, capped: *capped, filler: 0, period: 0 }, ..c.clone() });
                 }
                 if c.level != 1 || c.ext != 0 || c.cache || c.special || !c.doc {
                     out.push(Case { level: 1, ext: 0, cache: false, special: false, doc: true, ..c.clone() });
@@ -449,7 +462,7 @@ impl Property for C02 {
                 obs.class(&format!("src:{src}"));
                 (text.as_str(), 0)
             }
-            Input::Nest { kind, depth, closed, capped } => {
+            Input::Nest { kind, depth, closed, capped, filler, period } => {
                 let Some(k) = nesting::kind_index(kind) else { return Verdict::Skip("unknown-nesting-kind".into()) };
                 obs.class(&format!("nest:{kind}"));
                 obs.class(if *closed { "nest-closed" } else { "nest-unclosed" });
@@ -458,7 +471,8 @@ impl Property for C02 {
                     obs.class(&format!("capped:{kind}"));
                     obs.count("depth-capped-cases", 1);
                 }
-                owned = nesting::render(k, *depth, *closed);
+                obs.class_if(*filler != 0 && *period > 0, "nest-with-comment-lines-between-levels");
+                owned = nesting::render_with(k, *depth, *closed, *filler, *period);
                 (owned.as_str(), *depth)
             }
             Input::Scale { unit, src, max_mib } => return self.check_scale(c, unit, src, *max_mib, obs),
@@ -493,7 +507,7 @@ impl Property for C02 {
 
 fn describe(c: &Case) -> String {
     match &c.input {
-        Input::Nest { kind, depth, closed, .. } => format!("nest {kind} depth={depth} closed={closed}"),
+        Input::Nest { kind, depth, closed, filler, period, .. } => format!("nest {kind} depth={depth} closed={closed} filler={:?}/{period}", nesting::FILLERS[*filler as usize % nesting::FILLERS.len()]),
         Input::Text { text, .. } => format!("{:?}", one_line(text, 300)),
         Input::Scale { unit, .. } => format!("unit {:?}", one_line(unit, 300)),
     }
